@@ -284,8 +284,9 @@ def load_image_band(filename,
         hdulist = expand(filename)
         header = hdulist[0].header
 
-    row_min = int(header['NAXIS2']/band[1] * (band[0]))
-    row_max = int(header['NAXIS2']/band[1] * (band[0]+1))
+    # integer arithmetic so that the bands tile the image exactly
+    row_min = header['NAXIS2'] * band[0] // band[1]
+    row_max = header['NAXIS2'] * (band[0]+1) // band[1]
 
     if compressed:
         return hdulist[0].data[row_min:row_max, :], header
